@@ -707,12 +707,12 @@ func (l *Lowerer) lowerStruct(s *parser.StructDecl) error {
 		align, size := l.typeAlignmentAndSize(typeHandle)
 
 		// Check for explicit @align(N) attribute on the member
-		if explicitAlign := getAlignAttribute(m.Attributes); explicitAlign > 0 {
+		if explicitAlign := l.getAlignAttribute(m.Attributes); explicitAlign > 0 {
 			align = explicitAlign
 		}
 
 		// Check for explicit @size(N) attribute on the member
-		if explicitSize := getSizeAttribute(m.Attributes); explicitSize > 0 {
+		if explicitSize := l.getSizeAttribute(m.Attributes); explicitSize > 0 {
 			size = explicitSize
 		}
 
@@ -738,14 +738,13 @@ func (l *Lowerer) lowerStruct(s *parser.StructDecl) error {
 }
 
 // getAlignAttribute extracts the value from an @align(N) attribute, returns 0 if not found.
-func getAlignAttribute(attrs []parser.Attribute) uint32 {
+func (l *Lowerer) getAlignAttribute(attrs []parser.Attribute) uint32 {
 	for _, attr := range attrs {
 		if attr.Name == "align" && len(attr.Args) == 1 {
-			if lit, ok := attr.Args[0].(*parser.Literal); ok {
-				var val uint32
-				if _, err := fmt.Sscanf(lit.Value, "%d", &val); err == nil {
-					return val
-				}
+			// a const-expression: literal (decimal or hex, optional suffix),
+			// named constant or simple arithmetic over them
+			if val, ok := l.evalConstU32Expr(attr.Args[0]); ok {
+				return val
 			}
 		}
 	}
@@ -753,14 +752,13 @@ func getAlignAttribute(attrs []parser.Attribute) uint32 {
 }
 
 // getSizeAttribute extracts the value from a @size(N) attribute, returns 0 if not found.
-func getSizeAttribute(attrs []parser.Attribute) uint32 {
+func (l *Lowerer) getSizeAttribute(attrs []parser.Attribute) uint32 {
 	for _, attr := range attrs {
 		if attr.Name == "size" && len(attr.Args) == 1 {
-			if lit, ok := attr.Args[0].(*parser.Literal); ok {
-				var val uint32
-				if _, err := fmt.Sscanf(lit.Value, "%d", &val); err == nil {
-					return val
-				}
+			// a const-expression: literal (decimal or hex, optional suffix),
+			// named constant or simple arithmetic over them
+			if val, ok := l.evalConstU32Expr(attr.Args[0]); ok {
+				return val
 			}
 		}
 	}
@@ -888,7 +886,7 @@ func (l *Lowerer) lowerGlobalVar(v *parser.VarDecl) error {
 	for _, attr := range v.Attributes {
 		if attr.Name == "group" && len(attr.Args) > 0 {
 			if lit, ok := attr.Args[0].(*parser.Literal); ok {
-				group, _ := strconv.ParseUint(lit.Value, 10, 32)
+				group, _ := parseAttrUint(lit.Value, 32)
 				if binding == nil {
 					binding = &ir.ResourceBinding{}
 				}
@@ -898,7 +896,7 @@ func (l *Lowerer) lowerGlobalVar(v *parser.VarDecl) error {
 		}
 		if attr.Name == "binding" && len(attr.Args) > 0 {
 			if lit, ok := attr.Args[0].(*parser.Literal); ok {
-				bind, _ := strconv.ParseUint(lit.Value, 10, 32)
+				bind, _ := parseAttrUint(lit.Value, 32)
 				if binding == nil {
 					binding = &ir.ResourceBinding{}
 				}
@@ -1108,7 +1106,7 @@ func (l *Lowerer) lowerOverride(o *parser.OverrideDecl) error {
 	for _, attr := range o.Attributes {
 		if attr.Name == "id" && len(attr.Args) > 0 {
 			if lit, ok := attr.Args[0].(*parser.Literal); ok {
-				if idVal, parseErr := strconv.ParseUint(lit.Value, 10, 16); parseErr == nil {
+				if idVal, parseErr := parseAttrUint(lit.Value, 16); parseErr == nil {
 					id16 := uint16(idVal)
 					id = &id16
 				}
@@ -13053,7 +13051,7 @@ func (l *Lowerer) collectBinding(attrs []parser.Attribute) *ir.Binding {
 		case "location":
 			if len(attr.Args) > 0 {
 				if lit, ok := attr.Args[0].(*parser.Literal); ok {
-					loc, _ := strconv.ParseUint(lit.Value, 10, 32)
+					loc, _ := parseAttrUint(lit.Value, 32)
 					if locBinding == nil {
 						locBinding = &ir.LocationBinding{}
 					}
@@ -13063,7 +13061,7 @@ func (l *Lowerer) collectBinding(attrs []parser.Attribute) *ir.Binding {
 		case "blend_src":
 			if len(attr.Args) > 0 {
 				if lit, ok := attr.Args[0].(*parser.Literal); ok {
-					idx, _ := strconv.ParseUint(lit.Value, 10, 32)
+					idx, _ := parseAttrUint(lit.Value, 32)
 					if locBinding == nil {
 						locBinding = &ir.LocationBinding{}
 					}
@@ -13289,12 +13287,20 @@ func (l *Lowerer) extractWorkgroupSize(attrs []parser.Attribute) [3]uint32 {
 	return result
 }
 
+// parseAttrUint parses the integer literal of an attribute argument such as
+// @group(1u), @location(0x2) or @workgroup_size(8i): decimal or hexadecimal,
+// with an optional i / u suffix.
+func parseAttrUint(text string, bits int) (uint64, error) {
+	text = strings.TrimSuffix(strings.TrimSuffix(text, "u"), "i")
+	return strconv.ParseUint(text, 0, bits)
+}
+
 // evalConstU32Expr evaluates an expression as a compile-time u32 constant.
 // Handles literals, constant identifier references, and simple binary expressions.
 func (l *Lowerer) evalConstU32Expr(expr parser.Expr) (uint32, bool) {
 	switch e := expr.(type) {
 	case *parser.Literal:
-		if val, err := strconv.ParseUint(e.Value, 10, 32); err == nil {
+		if val, err := parseAttrUint(e.Value, 32); err == nil {
 			return uint32(val), true
 		}
 		// Try parsing as signed
